@@ -1,6 +1,7 @@
 package drv
 
 import (
+	"strings"
 	"bytes"
 	"encoding/binary"
 	"encoding/json"
@@ -559,6 +560,101 @@ func (i *Inst) RunRelay(r *RlScript, tw *TraceWriter, rng *rand.Rand) error {
 			tw.Line(M{"ev": "c2b", "transport": r.Transport, "decl": len(want), "carr": len(want), "got": len(got), "prefix": pre, "end": false, "hookbytes": 0, "skipped": false, "burst": len(sizes),
 				"closing": true, "apart": apart, "hostEnd": hostEnd})
 			return nil
+		case "reout":
+			// legacy: while the host is sending, the client sends a second RDG_OUT_DATA request under the tunnel's
+			// identifier and reads on there.  What it reads - the rest of the old connection up to its end, then the
+			// new connection after its HTTP answer - is still the host's stream, exactly, in well-formed packets
+			if t.In == nil {
+				return fmt.Errorf("reout needs the legacy transport")
+			}
+			n := num(a, "n", 1<<20)
+			chunk := prng(prodSeed+int64(ai), n)
+			produced = append(produced, chunk...)
+			sendDone := make(chan error, 1)
+			go func() {
+				// in pieces, so that the relay is writing all the time while the second request is handled
+				for off := 0; off < len(chunk); off += 2048 {
+					if err := bc.Send(chunk[off:min(off+2048, len(chunk))]); err != nil {
+						sendDone <- err
+						return
+					}
+					if off%(64<<10) == 0 {
+						time.Sleep(time.Millisecond)
+					}
+				}
+				sendDone <- nil
+			}()
+			time.Sleep(time.Duration(num(a, "afterms", 3)) * time.Millisecond)
+			npk, rcv, allwf := 0, 0, true
+			take := func(b []byte) {
+				d := tsgu.Decode(b)
+				if d.Type != tsgu.PktData {
+					allwf = false
+					return
+				}
+				npk++
+				if !d.WellForm || d.HdrLen != d.WireLen {
+					allwf = false
+				}
+				received = append(received, d.Payload...)
+				rcv += len(d.Payload)
+			}
+			// "gated": the handler of the second request is held right after it has made the new connection the one the
+			// tunnel answers on (hook point legacy.out.attached) while the host keeps sending, then let go
+			gated := a["gated"] == true && !i.Cfg.NoHooks
+			if gated {
+				gm := i.P.Mark()
+				if err := i.P.Gate("legacy.out.attached", t.Cid, ""); err != nil {
+					return err
+				}
+				go func() {
+					i.P.Wait(gm, 5*time.Second, func(e gw.Event) bool { return e.Cid == t.Cid && e.Pt == "legacy.out.attached" && e.Gated })
+					time.Sleep(40 * time.Millisecond)
+					i.P.Release("legacy.out.attached", t.Cid, "", 2)
+					i.P.Ungate("legacy.out.attached", t.Cid, "")
+				}()
+			}
+			o2, rep2, derr := wsraw.DialLegacyOut(i.dialOpts(pc.OpenOpts(), t.Cid))
+			answered := derr == nil && o2 != nil
+			// the rest of the old connection, up to its end
+			for {
+				b, err := t.Out.ReadPacket(3 * time.Second)
+				if err != nil {
+					if err.Error() != "EOF" && err.Error() != "closed" && err.Error() != "timeout" && !strings.Contains(err.Error(), "reset") {
+						allwf = false // the old connection ended in the middle of a packet
+					}
+					break
+				}
+				take(b)
+			}
+			if answered {
+				t.Out.Close()
+				t.Out = o2
+				deadline := time.Now().Add(20 * time.Second)
+				for len(received) < len(produced) && time.Now().Before(deadline) {
+					b, err := t.Out.ReadPacket(5 * time.Second)
+					if err != nil {
+						if err.Error() != "timeout" {
+							allwf = false
+						}
+						break
+					}
+					take(b)
+				}
+			} else {
+				allwf = false
+				_ = rep2
+			}
+			pre := len(received) <= len(produced) && bytes.Equal(received, produced[:len(received)])
+			tw.Line(M{"ev": "b2c", "transport": r.Transport, "n": n, "sizecls": map[bool]string{false: "second-out", true: "second-out-held"}[gated], "npk": npk, "rcv": rcv, "prefix": pre, "allwf": allwf, "answered": answered})
+			select {
+			case <-sendDone:
+			case <-time.After(10 * time.Second):
+			}
+			if !answered || !pre || len(received) < len(produced) {
+				bc.Close()
+				return nil
+			}
 		case "bstall":
 			// the host streams n bytes while the client does not read for ms milliseconds (the gateway's writes to the
 			// client block on full socket buffers) and then reads everything: the stream must be the host's, exactly
